@@ -19,8 +19,8 @@ func init() {
 	core.Register(&core.Check{
 		ID: "C39", Level: "other", Title: "Transaction signature validation is exact",
 		Technique: "guard dominance relative to the per-entry loop body, argument identity on SSA values, loop-iteration must-execute, mask discipline in VerifyMultiSignature",
-		Explain: "Soundness half of the property, decided on the SSA. checkTransactionSignatures: nil is returned only after len(tx.Sigs) <= TX_MAX_SIG_SIZE and after the loop over tx.Sigs ran to its end; relative to the start of each iteration every insertion into the signer-address set is dominated by kn <= MULTI_SIG_MAX_PUBKEY_SIZE, sn >= m, m <= kn, m > 0 (kn=len(sig.PubKeys), sn=len(sig.SigData), m=int(sig.M) of the SAME entry) and by the verification of that entry — single-key arm (selected by kn == 1): signature.Verify(sig.PubKeys[0], hash[:], sig.SigData[0]) err==nil and the address inserted is AddressFromPubKey(sig.PubKeys[0]); multi-key arm: VerifyMultiSignature(hash[:], sig.PubKeys, m, sig.SigData) err==nil, AddressFromMultiPubKeys(sig.PubKeys, m) err==nil and the address inserted is its result; hash is tx.Hash(); every iteration inserts an address (no entry is skipped); tx.SignedAddr is assigned only here, from a collection of exactly the keys of that set. VerifyTransaction returns ErrNoError only after checkTransactionSignatures err==nil. core/signature.Verify returns nil only after Deserialize err==nil and s.Verify(pubKey, data, sig) true on its own parameters. VerifyMultiSignature: len(sigs) >= m, every accepted signature marks a previously unmarked key slot under s.Verify(keys[j], data, sig) (m DISTINCT keys), each of the m signatures must mark one, nil only after all m. EncodeMultiPubKeyProgramInto (address derivation): nil only after 1 <= m <= n, 1 < n <= MULTI_SIG_MAX_PUBKEY_SIZE. NOT decided: completeness ('exactly when' — every valid transaction passes), and the cryptography of ontology-crypto.",
-		Run: runC39,
+		Explain:   "Soundness half of the property, decided on the SSA. checkTransactionSignatures: nil is returned only after len(tx.Sigs) <= TX_MAX_SIG_SIZE and after the loop over tx.Sigs ran to its end; relative to the start of each iteration every insertion into the signer-address set is dominated by kn <= MULTI_SIG_MAX_PUBKEY_SIZE, sn >= m, m <= kn, m > 0 (kn=len(sig.PubKeys), sn=len(sig.SigData), m=int(sig.M) of the SAME entry) and by the verification of that entry — single-key arm (selected by kn == 1): signature.Verify(sig.PubKeys[0], hash[:], sig.SigData[0]) err==nil and the address inserted is AddressFromPubKey(sig.PubKeys[0]); multi-key arm: VerifyMultiSignature(hash[:], sig.PubKeys, m, sig.SigData) err==nil, AddressFromMultiPubKeys(sig.PubKeys, m) err==nil and the address inserted is its result; hash is tx.Hash(); every iteration inserts an address (no entry is skipped); tx.SignedAddr is assigned only here, from a collection of exactly the keys of that set. VerifyTransaction returns ErrNoError only after checkTransactionSignatures err==nil. core/signature.Verify returns nil only after Deserialize err==nil and s.Verify(pubKey, data, sig) true on its own parameters. VerifyMultiSignature: len(sigs) >= m, every accepted signature marks a previously unmarked key slot under s.Verify(keys[j], data, sig) (m DISTINCT keys), each of the m signatures must mark one, nil only after all m. EncodeMultiPubKeyProgramInto (address derivation): nil only after 1 <= m <= n, 1 < n <= MULTI_SIG_MAX_PUBKEY_SIZE. NOT decided: completeness ('exactly when' — every valid transaction passes), and the cryptography of ontology-crypto.",
+		Run:       runC39,
 	})
 }
 
